@@ -234,22 +234,25 @@ PROPS["C18"] = {
     ],
 }
 PROPS["C01"] = {
-    "level_text": "Kernels of the data path on the real objects, no sockets. WRITE side: an arbitrary RTP packet (all header fields, 0-2 CSRC, payload 0..P symbolic, padding through either pion field) written through the real clientFormat / serverSessionFormat / serverStreamFormat.writePacketRTP on a minimal object graph (real asyncprocessor + ring buffer, capturing sink): the bytes queued parse back (pion) to the same payload, marker, timestamp, sequence number and payload type with SSRC = the format's announced local SSRC; every active unicast reader of a stream gets the packet exactly once; refused writes reach nobody. RECEIVE side over UDP (client and server session): K datagrams with arbitrary sequence numbers within a quarter of the sequence space (gaps, reordering, duplicates) and symbolic payloads through the real listener loop with its receive-buffer replacement policy, payload-type demultiplexing, fastRTPUnmarshal and the real reorder buffer: every delivered packet carries the payload sent with its sequence number (also after being parked while later datagrams were read), no sequence number delivered twice. fastRTPUnmarshal agrees with pion's Packet.Unmarshal on every byte string <= P.",
+    "level_text": "Kernels of the data path on the real objects, no sockets. WRITE side: an arbitrary RTP packet (all header fields, 0-2 CSRC, payload 0..P symbolic, padding through either pion field) written through the real clientFormat / serverSessionFormat / serverStreamFormat.writePacketRTP on a minimal object graph (real asyncprocessor + ring buffer, capturing sink): the bytes queued parse back (pion) to the same payload, marker, timestamp, sequence number and payload type with SSRC = the format's announced local SSRC; every active unicast reader of a stream gets the packet exactly once; refused writes reach nobody. RECEIVE side over UDP (client and server session): K datagrams with arbitrary sequence numbers within a quarter of the sequence space (gaps, reordering, duplicates) and symbolic payloads through the real listener loop with its receive-buffer replacement policy, payload-type demultiplexing, fastRTPUnmarshal and the real reorder buffer: every delivered packet carries the payload sent with its sequence number (also after being parked while later datagrams were read), no sequence number delivered twice. fastRTPUnmarshal agrees with pion's Packet.Unmarshal on every byte string <= P. Interleaved transport: every frame / response / request is handed to the connection in ONE Write (two writers share it) and sequences of them are read back intact (conn.Conn); media identity: the control attributes handed out by DESCRIBE resolve to the media they describe (so packets reach the callback of the media that was set up).",
     "level_note": "Not covered (stated in DESIGN.md §6/§7): goroutine schedules, sockets, TLS/tunnels (WebSocket/HTTP carriers use gorilla and real connections), UDP loss in the kernel, readers joining/leaving, ordering across packets on the write side (delegated to C16's FIFO step), SRTP contents, interleaved-frame demultiplexing by channel. Trusted: engine semantics, pion/rtp Unmarshal as the reference reader.",
     "runs": [
         R("write-paths", ".", "root", ["ZzC18ClientWriteRTP", "ZzC18StreamWriteRTP", "ZzC18SessionWriteRTP"], params={"GOSTUB": 1}, extras=_EXTRAS,
           quick_params={"P": 12, "MAXPS": 36}, thorough_params={"P": 40, "MAXPS": 80, "NR": 3}),
         R("udp-receive", ".", "root", ["ZzC01ClientUDPReceive"], params={"GOSTUB": 1}, extras=_EXTRAS, quick_params={"K": 4, "B": 4}, thorough_params={"K": 5, "B": 4, "P": 3}),
         R("udp-receive-server", ".", "root", ["ZzC01ServerUDPReceive"], params={"GOSTUB": 1}, extras=_EXTRAS, quick_params={"K": 4, "B": 4}, thorough_params={"K": 5, "B": 4, "P": 3}),
+        R("conn-elements", "pkg/conn", "pkg/conn", ["ZzC04ConnSequence"], flags={"concoff": True}, params={"MLO": 5, "MHI": 5}, quick_params={"N": 2}, thorough_params={"N": 3}),
+        R("describe-control", ".", "root", ["ZzC20DescribeControl"], params={"GOSTUB": 1}, extras=_EXTRAS, quick_params={"N": 3}, thorough_params={"N": 5}),
         R("fast-unmarshal", ".", "root", ["ZzC01FastUnmarshal"], params={"GOSTUB": 1}, extras=_EXTRAS, flags={"concoff": True},
           quick_params={"P": 20}, thorough_params={"P": 28}),
     ],
 }
 PROPS["C19"] = {
-    "level_text": 'UDP source filters on the real listener loops with a harness PacketConn: server: callback runs iff the source (IPv4 / IPv4-mapped / IPv6, all bytes and port symbolic) equals the registered address; client: IP and port filter, any-port latching of the first accepted port and enforcement afterwards (two datagrams), timeout clock untouched by rejected datagrams.',
-    "level_note": 'Outside: author-IP check in Server.run (channels), interleaved session pinning in handleRequestInner, real sockets.',
+    "level_text": 'UDP source filters on the real listener loops with a harness PacketConn: server: callback runs iff the source (IPv4 / IPv4-mapped / IPv6, all bytes and port symbolic) equals the registered address; client: IP and port filter, any-port latching of the first accepted port and enforcement afterwards (two datagrams), timeout clock untouched by rejected datagrams. Interleaved session pinned to its connection: in every session state and for every method a request arriving on another connection is refused with an error and leaves the state untouched (handleRequestInner).',
+    "level_note": 'Outside: author-IP check and its side effects in Server.run / the session run loop (channels), real sockets.',
     "runs": [
         R("udp-filters", ".", "root", ["ZzC19ServerUDPFilter", "ZzC19ClientUDPFilter"], params={"GOSTUB": 1}, extras=_EXTRAS),
+        R("pinned-connection", ".", "root", ["ZzC02StateGuard"], params={"GOSTUB": 1}, extras=_EXTRAS, flags={"concoff": True}),
     ],
 }
 PROPS["C20"] = {
